@@ -810,9 +810,14 @@ def parse_tree_to_objgraph(
                     setattr(obj_attr, attr_name, value)
 
             elif op in ["list", "oneormore", "zeroormore"]:
+                # Separator match of the repeat modifiers, if given. Its nodes
+                # are told by the match that made them: a grammar rule may be
+                # named `sep` too and a separator that matches nothing leaves
+                # no node, so neither the name nor the place tells them.
+                sep_rule = getattr(node.rule, "sep", None)
                 for n in node:
                     # If the node is separator skip
-                    if n.rule_name != "sep":
+                    if sep_rule is None or n.rule is not sep_rule:
                         # Convert node to proper type
                         # Rule links will be resolved later
                         value = process_node(n)
